@@ -699,7 +699,10 @@ def _sexpr_data(line: str) -> Iterator[Tuple[str, Any]]:
             break
 
         key, val = expr.data
-        assert isinstance(key, str)
+        if not isinstance(key, str):
+            # e.g., the inner list of a truncated expression
+            logger.error('Could not read output from ACE: %s', line)
+            break
         yield key, val
 
         line = expr.remainder.lstrip()
